@@ -1,7 +1,7 @@
 """C06 - the model family is consistent: special cases and generating functions agree."""
 from props.C05 import nests_extra, tv_extras
 
-CONTRACT_MODULES = ['c05_nests']
+CONTRACT_MODULES = ['c05_nests', 'c05_logit', 'c05c_nodes', 'c05c_builders', 'c05c_nested']
 LEVEL = 'other'
 TRUSTED = ['pyvc (VC generator, Python semantics of the stated subset)', 'z3 5.1.0 / cvc5',
            'mpmath 30-digit arithmetic and sympy differentiation (checking half of the translation validation)',
@@ -18,9 +18,14 @@ EXPLANATION = ('Shape-bounded translation validation: for every nest structure u
                'arithmetic: nested logit with all nest parameters one = logit, cross-nested logit with 0/1 allocations = nested logit, '
                'scale one = unscaled, published generating function = textbook G, published terms = log of the partial derivatives '
                '(sympy) of the textbook G and of the published G.  biogeme.nests conversion of the tuple syntax is compared field-wise '
-               'on every small structure; OneNestForNestedLogit.intersection is proved for all inputs.')
+               'on every small structure; OneNestForNestedLogit.intersection is proved for all inputs.  Deductive part (contracts/'
+               'c05c_nested.py, all numbers of nests and alternatives): models.lognested / nested are proved to return a tree whose value '
+               'is the MEV kernel with h_k = V_k + c05c_lng(nests, util, av, k) (closed form of ln dG/dy_k as published: the term of the '
+               'nest of k, 0 outside every nest); when there is no nest or every nest parameter has value one that value is proved to be '
+               'the logit kernel - the very formula proved for models.loglogit (lemma C06:lemma:nested-with-unit-nest-parameters:...).')
 LEVEL_TEXT = ('Bounded: shape-bounded translation validation of the real builders (random points, 30-digit arithmetic, sympy derivatives); '
-              'only the set-intersection helper is a deductive proof.  Nothing bounded is counted as proved.')
+              'the set-intersection helper and the reduction nested(mu = 1 or no nest) = logit (term equality over uninterpreted exp / log) '
+              'are deductive proofs; cross-nested = nested, scale one = unscaled and lnG = log dG/dy stay bounded.  Nothing bounded is counted as proved.')
 LEVEL_NOTE = ('Trusted: pyvc, z3/cvc5, mpmath/sympy, the SEM table and the textbook formulas; bounded checks cover <= 4 alternatives and '
               '<= 3 nests (thorough: 6 / 4) at random points only.')
 TECHNIQUE = 'contract-based deductive verification (AST -> VCs -> z3/cvc5) + shape-bounded translation validation of the real builders'
@@ -98,6 +103,12 @@ EXPECTED = [
 ]
 
 
+def c05c_lemmas():
+    """round 3 (agent c05c): lemma over the proved closed forms (specs/c05c_static.py)"""
+    from specs.c05c_static import c06_extras
+    return c06_extras()
+
+
 def extra(tier, seed):
-    return (nests_extra('C06', 'tuple', 'C06:bounded:nests:tuple-syntax-field-wise-equals-object-syntax', tier)
+    return (c05c_lemmas() + nests_extra('C06', 'tuple', 'C06:bounded:nests:tuple-syntax-field-wise-equals-object-syntax', tier)
             + tv_extras('C06', tier, seed, EXPECTED))
